@@ -256,7 +256,7 @@ def parse_playback_tests(text):
 def run_harnesses(crate, inject, harnesses, extra_args=(), timeout_s=900, mem_gb=12, jobs=None, playback=True, log_tag=None):
     """crate: cargo package name; inject: {source file relative to the repo root: absolute harness .rs path};
     harnesses: short harness function names (substring filters of `cargo kani --harness`; must be unambiguous);
-    extra_args: e.g. ['-Z', 'stubbing']; timeout_s: wall limit of the whole verification run; mem_gb: address-space cap of every cbmc process.
+    extra_args: e.g. ['-Z', 'stubbing']; timeout_s: wall limit per harness (the whole run gets timeout_s * ceil(n/jobs) + 120); mem_gb: address-space cap of every cbmc process.
     Returns {harness: result dict}; see module doc for the classification."""
     harnesses = list(harnesses)
     if not harnesses: return {}
@@ -283,8 +283,11 @@ def run_harnesses(crate, inject, harnesses, extra_args=(), timeout_s=900, mem_gb
         json.dump(man, open(mpath, 'w'))
         meta['stubs'] = sorted(set(re.findall(r'- Stub: (.+)', out)))
         # ---- verify
+        # timeout_s is per harness (Kani's own --harness-timeout); the outer `timeout` only guards the whole run
         cmd = base + ['-j', str(jobs), '--output-format', 'terse']
-        rc, out, dt = _run(cmd, src, timeout_s=timeout_s, mem_gb=mem_gb, log=os.path.join(logdir, tag + '.verify.log'))
+        if not any(a == '--harness-timeout' for a in extra_args): cmd += ['-Z', 'unstable-options', '--harness-timeout', '%ds' % int(timeout_s)]
+        rounds = (len(harnesses) + jobs - 1) // jobs
+        rc, out, dt = _run(cmd, src, timeout_s=timeout_s * rounds + 120, mem_gb=mem_gb, log=os.path.join(logdir, tag + '.verify.log'))
         meta['verify_s'] = round(dt, 1); meta['verify_rc'] = rc
         meta['stubs'] = sorted(set(meta['stubs']) | set(re.findall(r'- Stub: (.+)', out)))
         results = parse_output(out, harnesses)
